@@ -7,6 +7,13 @@ from symtrace import engine as E, harness as H, oblig as O
 from . import common as C
 
 
+def lookup(spec):
+    """catalogue entry of a job spec (the catalogue module is named in the spec; default: the operation catalogue)"""
+    import importlib
+    mod = importlib.import_module(spec.get("catalogue", "checks.catalogue"))
+    return mod.by_name(spec["cfg"].get("n", 4), "thorough")[spec["entry"]]
+
+
 def gtag(cfg):
     g = cfg.get("guard")
     t = "plain"
